@@ -171,6 +171,36 @@ def reference(spec):
             Y[k, k] = Y[k + n, k + n] = (1 - T) * (2 * nb + 1)
             mu = X @ mu
             V = X @ V @ X.T + Y
+        elif name in ("MeasureHomodyneSel", "MeasureHeterodyneSel"):
+            # post-selected measurement of mode k: the others get the textbook conditional state, k is reset to vacuum
+            B = [k, k + n]
+            A = [i for i in range(2 * n) if i not in B]
+            VA, VAB, VB = V[np.ix_(A, A)], V[np.ix_(A, B)], V[np.ix_(B, B)]
+            mA, mB = mu[A], mu[B]
+            if name == "MeasureHomodyneSel":
+                phi, val = params
+                w = np.array([math.cos(phi), math.sin(phi)])  # measured quadrature x_phi = cos(phi) x + sin(phi) p
+                var = float(w @ VB @ w)
+                gain = (VAB @ w) / var
+                VA = VA - np.outer(gain, VAB @ w)
+                mA = mA + gain * (val - float(w @ mB))
+            else:
+                u = np.array([2 * params[0], 2 * params[1]])
+                Kg = VAB @ np.linalg.inv(VB + np.eye(2))
+                VA = VA - Kg @ VAB.T
+                mA = mA + Kg @ (u - mB)
+            V = np.eye(2 * n)
+            mu = np.zeros(2 * n)
+            V[np.ix_(A, A)] = VA
+            mu[A] = mA
+        elif name == "GaussianNoDecomp":
+            Vn, rn = np.array(params[0], dtype=float), np.array(params[1], dtype=float)
+            kk = len(modes)
+            idx = list(modes) + [m + n for m in modes]
+            V[idx, :] = 0
+            V[:, idx] = 0
+            V[np.ix_(idx, idx)] = Vn
+            mu[idx] = rn
         else:  # preparations: reset mode k then prepare
             idx = [k, k + n]
             V[idx, :] = 0
@@ -242,6 +272,14 @@ def search(ctx):
             spec["cmds"] = sfgen.entangling_prefix(rng, spec["n"]) + spec["cmds"]
         else:
             spec = {"n": n, "cmds": [sfgen.random_cmd(rng, n, GNAMES, dagger_prob=0.2) for _ in range(rng.randint(1, 7))]}
+        if spec["n"] >= 2 and "live" not in spec and rng.random() < 0.3:
+            # a post-selected measurement of one mode of the (by then correlated, displaced) register, possibly followed by more gates
+            pos = rng.randint(max(1, len(spec["cmds"]) - 2), len(spec["cmds"]))
+            mname = rng.choice(["MeasureHomodyneSel", "MeasureHeterodyneSel"])
+            spec["cmds"] = sfgen.entangling_prefix(rng, spec["n"]) + spec["cmds"][:pos] + [sfgen.random_cmd(rng, spec["n"], [mname], 0.0)] + spec["cmds"][pos:]
+        if "live" not in spec and rng.random() < 0.2:
+            spec["cmds"].insert(rng.randint(0, len(spec["cmds"])), gaussian_prep_cmd(rng, spec["n"]))
+        meas = any(c[0] in sfgen.MEASURE_SEL for c in spec["cmds"])
         data = {"check": "gbr", "spec": spec}
         try:
             g = bc.gauss_obs(bc.run(spec, "gaussian"))
@@ -251,7 +289,8 @@ def search(ctx):
             ctx.counterexample("gbr:raises:%s" % type(e).__name__, "running %s raised %r" % (spec, e), data)
             continue
         ctx.case(spec, nontrivial=nontrivial(spec), bucket="gauss-bosonic-ref")
-        gb, gr, br = cmp_gauss(g, b), cmp_gauss(g, r), cmp_gauss(b, r)
+        tol = 2e-5 if meas else 1e-8  # homodyne is simulated with a finitely squeezed (eps = 2e-4) projector
+        gb, gr, br = cmp_gauss(g, b, tol), cmp_gauss(g, r, tol), cmp_gauss(b, r, tol)
         if gb or gr or br:
             spec1 = shrink(spec, lambda s: any_diff(s))
             data = {"check": "gbr", "spec": spec1}
@@ -301,7 +340,20 @@ def any_diff(spec):
     g = bc.gauss_obs(bc.run(spec, "gaussian"))
     b = bc.gauss_obs(bc.run(spec, "bosonic"))
     r = reference(spec)
-    return cmp_gauss(g, b) or cmp_gauss(g, r) or cmp_gauss(b, r)
+    tol = 2e-5 if any(c[0] in sfgen.MEASURE_SEL for c in spec["cmds"]) else 1e-8
+    return cmp_gauss(g, b, tol) or cmp_gauss(g, r, tol) or cmp_gauss(b, r, tol)
+
+
+def gaussian_prep_cmd(rng, n):
+    """Gaussian(V, r, decomp=False) on 1..3 modes listed in a random (possibly cyclic) order."""
+    from thewalrus.random import random_covariance
+    k = rng.randint(1, min(3, n))
+    modes = rng.sample(range(n), k)
+    np.random.seed(rng.randrange(2 ** 31))
+    V = random_covariance(k, hbar=2, pure=rng.random() < 0.5)
+    V = (V + V.T) / 2
+    r = [round(rng.uniform(-1, 1), 3) for _ in range(2 * k)]
+    return ["GaussianNoDecomp", [V.tolist(), r], modes, False]
 
 
 def fock_pm_diff(spec, cutoff=7):
